@@ -162,7 +162,7 @@ func judgeCrashImage(c *Case, ex *Expectation, root string, at string) *sim.Viol
 				}
 			}
 		}
-		if skip {
+		if skip || e.StaleBak {
 			continue
 		}
 		switch e.Kind {
